@@ -1,7 +1,7 @@
 /-
   C04 driver: the model of `searchEdge` (LibfiveModel/Marching.lean: `search`) against the real
-  SimplexMesher::searchEdge.  Input (harness/mesh.cpp):
-    search <id> t_real offset z changes f(a) f(b) len slope f(lo) f(hi)
+  SimplexMesher::searchEdge (`search`) and HybridMesher::searchEdge (`hsearch`).  Input (harness/mesh.cpp):
+    search|hsearch <id> t_real offset z changes f(a) f(b) len slope f(lo) f(hi)
   where `t_real` is the parameter of the vertex the real code returned on the segment a -> b,
   `z` the parameter of the (single) sign change of the double-precision reference field and
   `slope` its derivative there.  The model is run on the classifier `t > z` with the constants
@@ -49,7 +49,9 @@ def modelMid (z : Float) : Float :=
 
 def handle (line : String) : Option String :=
   match words line with
-  | ["search", id, t, off, z, changes, _fa, _fb, len, slope, _flo, _fhi] =>
+  | [kind, id, t, off, z, changes, _fa, _fb, len, slope, _flo, _fhi] =>
+    if kind != "search" && kind != "hsearch" then none else
+    let id := s!"{kind}:{id}"
     let t := float! t
     let z := float! z
     let len := float! len
